@@ -123,6 +123,7 @@ def main():
     ap.add_argument("--no-verify", action="store_true", help="skip fresh-interpreter confirmation of replays")
     ap.add_argument("--quiet-replay", action="store_true")
     ap.add_argument("--dump-logs", help="self-test aid: write 'index log-digest' per run to this file and exit 0")
+    ap.add_argument("--first", action="store_true", help="self-test aid: stop submitting runs after the first violation")
     ap.add_argument("--no-seams", action="store_true", help="self-test aid: run without installing the fault seams")
     a = ap.parse_args()
     prop = a.prop
@@ -149,7 +150,7 @@ def main():
         print("DIGEST %s runs=%d" % (merged["batch_digest"], merged["runs"]))
         return 0 if not merged["errors"] else 3
     n_reg, reg_viol = run_regressions(profile, prop)
-    merged = kernel.run_batch(profile, a.seed, a.tier, n_runs, a.jobs, wall_cap)
+    merged = kernel.run_batch(profile, a.seed, a.tier, n_runs, a.jobs, wall_cap, stop_on_first=a.first)
     if merged["errors"]:
         for e in merged["errors"][:5]:
             print("HARNESS-ERROR seed=%s index=%s %s" % (e["seed"], e["index"], e["error"]))
